@@ -122,6 +122,26 @@ def make(rng, index, n_entries=None, volumes=None, names=None, dates=None,
     return L, trashes, entries
 
 
+def unremovable(e, case):
+    """the payload cannot be removed by a purge: permissions (only when the
+    run is made without the capabilities that ignore them), or a file system
+    is mounted on the trashed directory"""
+    return bool(e.get('mountpoint')) or (
+        e['kind'] in ('tree_locked', 'tree_readonly') and bool(case.get('drop_caps')))
+
+
+def mount_on_payload(L, rng, entries, p=1.0):
+    """a file system is mounted on one trashed directory (files/<name> is a
+    mount point: rmdir and rename answer EBUSY)"""
+    c = [e for e in entries if e['kind'] in ('tree', 'dir_empty')]
+    if not c or rng.random() >= p:
+        return None
+    e = rng.choice(c)
+    e['mountpoint'] = True
+    L.mounts.append(pair_keys(e)[1])
+    return e
+
+
 def pair_keys(e):
     return ('%s/info/%s.trashinfo' % (e['trash'], e['name']),
             '%s/files/%s' % (e['trash'], e['name']))
